@@ -142,11 +142,14 @@ def analyse_recurrence(sw: SaviSweep):
             if not out["mask_ok"] and cached_:
                 raise AnalysisError(f"SemiAsyncValueIteration: the padding mask is read from solver state {cached_} that the sweep itself assigns (a cache): whether "
                                     "it is the documented mask depends on what earlier calls stored; the rule gives no verdict")
-            if not out["mask_ok"] and not any(t[0] == "app" and t[1].startswith("cmp") and any(u[0] == "app" and u[1] == "arange" for u in subterms(t)) for t in subterms(m)):
+            known_bp = {"n_pad", "n_devices", "n_batches", "batch_size", "n_states", "batch_shape", "max_batch_size", "state_dim"}
+            opaque_ = sorted({t[1] for t in subterms(m) if t[0] == "sym" and isinstance(t[1], str) and t[1].startswith("batch_processor.")
+                              and t[1].split(".", 1)[1].split("[")[0] not in known_bp})
+            if not out["mask_ok"] and opaque_:
                 # not a comparison over the flat slot index at all (a table, a concatenation, a cumulative count, ..): the rule has no normal form
                 # for this way of building a mask, so it gives no verdict
-                raise AnalysisError("SemiAsyncValueIteration: the padding mask is built by a construct outside the rule's vocabulary (a comparison of the flat "
-                                    f"slot index arange(total) with n_states): {show_norm(m)[:200]}")
+                raise AnalysisError(f"SemiAsyncValueIteration: the padding mask is read from {opaque_}, which the BatchProcessor summary does not describe (the rule "
+                                    f"knows the mask as a comparison of the flat slot index arange(total) with n_states): {show_norm(m)[:160]}")
             out["keep_ok"] = same(c_, cur)
             out["new_ok"] = same(n_, bell)
             out["details"]["mask"] = show_norm(m)[:200]
